@@ -115,6 +115,16 @@ TEXT = {
   "note": "Trusted: Coq kernel, extraction, driver, harness, add-only overlay exports of updateTTL/AdjustedResponse.",
   "technique": "Coq proof (encoder/rewriter simulation by induction over records) + differential correspondence check",
  },
+ "C04": {
+  "text": "Proved in Coq (Properties/C04.v) on an LTS of the serve loops (UDP reader, any number of TCP connection readers, handler goroutines, the "
+          "buffer pool) for every capacity and every interleaving: units in use = readers holding one + live handlers <= capacity in every reachable "
+          "state; with no live handler all capacity is back; an idle reader can always take a free unit; every request ending runs the deferred "
+          "cleanup that releases exactly one unit; pooled buffers are never shared (NoDup of pool + owned) and a handler writes at most once. The "
+          "slip 'no release on the undersized-datagram path' is kept as a refuted mutant. Tie: storms on the real proxy with K in {2,3,5} followed by a "
+          "rendezvous of K+2 slow queries inside the resolver, judged by the extracted c04_ok spec.",
+  "note": "Trusted: Coq kernel, extraction, driver, harness. The LTS steps are the Go statements of serveUDP/serveTCPConn; the internal interleaving is not observed, only the concurrency inside the fake resolver. Depends on C02 for 'parse returns' (F1 fixed).",
+  "technique": "Coq proof (counting invariant by induction over all interleavings; refuted mutant) + storm/rendezvous correspondence check",
+ },
  "C05": {
   "text": "Proved in Coq for all pairs (advertised size 0..65535, upstream length 1..65535): datagram length <= max(512, advertised), "
           "shortened => TC set, fits => full length, every byte other than byte 2 is the upstream's, TCP frame = correct 2-byte prefix + whole message "
